@@ -1,11 +1,12 @@
-import SqlProofs.DelimR.AdHocBase
+import SqlProofs.DelimChild.Reindent.AdHocBase
 import SqlProofs.Group.SpecShape
 import SqlProofs.MatchSpec
 /-!
-# SqlProofs.DelimR.NW7 — after `group_comments` and the six matching passes every group has a non-whitespace child
+# SqlProofs.DelimChild.Reindent.NW7 — after `group_comments` and the six matching passes every group has a non-whitespace child
 -/
 namespace Sql
-namespace DC
+namespace DCR
+open DC
 
 variable {u : Text → Text}
 
@@ -243,11 +244,12 @@ theorem commentsLoop_nw : ∀ (n : Nat) (ks : List Node) (pend : Option (Nat × 
             have hn1 := groupTokens'_nwL hr (by decide) ⟨t, tok, Nat.le_refl _, by omega, htok, comment_item hcm⟩ hn
             exact ih _ _ _ h hn1 (fun t2 tok2 hq => pend_of_nextBy _ _ hq)
 
-end DC
+end DCR
 end Sql
 
 namespace Sql
-namespace DC
+namespace DCR
+open DC
 
 variable {u : Text → Text}
 
@@ -265,7 +267,7 @@ theorem nwL7_of_leaves_only {ks : List Node} (h : ∀ x ∈ ks, x.isGroup = fals
   | tok _ _ => rfl
   | grp _ _ => cases this
 
-theorem IsDelim.notComma {x : Node} (h : IsDelim u x) : isComma x = false := by
+theorem isDelim_notComma {x : Node} (h : IsDelim u x) : isComma x = false := by
   cases h with
   | punct hp =>
     simp only [List.mem_cons, List.not_mem_nil, or_false] at hp
@@ -285,7 +287,7 @@ theorem matchingPassOf_nw (c : Cls) {fuel : Nat} {c' : Cls} {L L' : List Node} (
     refine groupMatching_nw hcls ?_ h hn
     intro x hx
     obtain ⟨tt, v, rfl, hm⟩ := isOpenTok_leaf hx
-    exact (isDelim_of_matchAny (u := u) (c := c) (mo := o) (mc := cl) ht (Or.inl hm)).notComma
+    exact isDelim_notComma (isDelim_of_matchAny (u := u) (c := c) (mo := o) (mc := cl) ht (Or.inl hm))
 
 theorem name_comments : passByName u "group_comments" = recursePass [.Comment] (groupCommentsBody u) :=
   passByName_comments_eq
@@ -372,5 +374,5 @@ theorem take7_nwL {fuel : Nat} {st : List Tok} {m7 : List Node}
     (h : runPasses u fuel .Statement (Gen.passOrder.take 7) (flatStatement st) = .ok m7) : nwL m7 = true :=
   nwL_of_7 m7 (take7_nw h)
 
-end DC
+end DCR
 end Sql
